@@ -154,7 +154,10 @@ class Monitor:
         # handled: the arbiter's own log lines "Handling signal: x"
         recs = getattr(k.arbiter.log, "records", [])
         tgt = self.sc["workers"]
-        hups = [e[3] for e in k.log if e[1] == "signal_to_master" and e[2] == "HUP"]
+        # a reload takes the worker count the configuration holds when the arbiter gets round to reloading (the i-th handled HUP
+        # is the i-th reload); that need not be the value written before the i-th HUP was sent: when HUPs pile up in the queue, or
+        # a later one is dropped because the queue is full, an earlier-queued HUP already reads the newest configuration
+        hups = [e[2] for e in k.log if e[1] == "app_reload"]
         hi = 0
         for lvl, msg in recs:
             if msg.startswith("Handling signal: "):
@@ -460,7 +463,8 @@ def main(tier, seed):
         "workers that ignore TERM are not counted as live-and-serving once they have been asked to stop",
         "a recorded pid that no longer exists must be dropped within timeout + %d loop ticks of its disappearance when timeout > 0 (the "
         "younger ones, and all of them with timeout = 0, fall under the recorded fork/bookkeeping finding)" % PHANTOM_GRACE,
-        "a separate flood class delivers 6-9 signals at one instant: there the model target follows the signals the arbiter logged as handled",
+        "a separate flood class delivers 6-9 signals at one instant: there the model target follows the signals the arbiter logged as handled, "
+        "each handled HUP taking the worker count the configuration held when that reload ran",
         "live validation of the simulation against a real master: see the live sub-tier (traces_validated_against_impl)",
     ]
     from checks import c03_live
